@@ -30,6 +30,39 @@ DEPS = {
 }
 
 
+# The value-correctness properties are statements about a FUNCTION of the arguments: a necessary condition, visible in the code, is that the
+# public routine (with everything it calls) keeps nothing between calls -- no write to a module-level table, to a shared mutable default, or
+# to the caller's graph / event objects (a graph method that caches on the instance is such a write).  One obligation per entry point.
+AI = "y0.algorithm.identify"
+CT = "y0.algorithm.counterfactual_transport.api"
+ENTRY_POINTS = {
+    "C01": ("R1.9", [f"{AI}.id_std.identify", f"{AI}.api.identify_outcomes"]),
+    "C03": ("R3.9", [f"{AI}.id_c.idc"]),
+    "C04": ("R4.9", ["y0.algorithm.conditional_independencies.are_d_separated"]),
+    "C07": ("R7.9", [f"{AI}.id_star.id_star"]),
+    "C08": ("R8.9", [f"{AI}.idc_star.idc_star"]),
+    "C09": ("R9.9", [f"{CT}.transport_unconditional_counterfactual_query", f"{CT}.transport_conditional_counterfactual_query", f"{CT}.unconditional_cft", f"{CT}.conditional_cft"]),
+    "C10": ("R10.9", ["y0.mutate.canonicalize_expr.canonicalize", "y0.mutate.canonicalize_expr.canonical_expr_equal"]),
+    "C11": ("R11.9", ["y0.mutate.canonicalize_expr.canonicalize"]),
+    "C13": ("R13.9", ["y0.mutate.chain.chain_expand", "y0.mutate.chain.fraction_expand", "y0.mutate.chain.bayes_expand", "y0.mutate.contract.contract"]),
+    "C17": ("R17.9", ["y0.algorithm.tian_id.identify_district_variables", "y0.algorithm.tian_id.compute_c_factor", "y0.algorithm.tian_id.compute_ancestral_set_q_value"]),
+    "C18": ("R18.9", [f"{AI}.cg.make_counterfactual_graph", f"{AI}.cg.make_parallel_worlds_graph"]),
+    "C19": ("R19.9", [f"{CT}.simplify", f"{CT}.minimize_event", f"{CT}.get_counterfactual_factors", f"{CT}.do_counterfactual_factor_factorization"]),
+    "C20": ("R20.9", ["y0.algorithm.separation.sigma_separation.are_sigma_separated"]),
+}
+
+
+def entry_points_stateless(pid: str, model, rep: Report) -> None:
+    if pid not in ENTRY_POINTS:
+        return
+    from yv.rules.common import stateless_obligations
+
+    rule, quals = ENTRY_POINTS[pid]
+    present = [q for q in quals if model.has_func(q)]
+    stateless_obligations(model, rep, rule, present)
+    rep.floors[rule] = len(quals)
+
+
 def thorough(pid: str, model, rep: Report, args) -> None:
     from yv.report import PROVEN, REFUTED, UNKNOWN
     from yv.selftest import self_validate
@@ -101,6 +134,7 @@ def main() -> int:
         rep.stats["files_parsed"] = model.files_parsed
         rep.stats["source_digest"] = model.digest()
         mod.run(model, rep, args.tier)
+        entry_points_stateless(pid, model, rep)
         if args.tier == "thorough":
             thorough(pid, model, rep, args)
     except AnalysisError as e:
